@@ -81,6 +81,9 @@ def run(ctx):
     gate_identity(ctx)
     numeric_gate_and_renderer(ctx)
     no_content_types(ctx)
+    from . import c04
+    c04.check_before_store(ctx)          # attribute values reach their gate: every stored entry has been checked
+    c04.check_attribute_gate(ctx)
 
 
 # ---------------------------------------------------------------------------------------------- V1
